@@ -109,7 +109,7 @@ def instances(tier, fam='symtab'):
         if len(set(ol)) <= 1:
             checks += '\t{ bool ok = true; for (int k = 0; k < nrec && k < MAXREC; k++) if (!rec[k].isfunc && rec[k].global != %d) ok = false;\n' % (ol[0] if ol else 0)
             checks += '\t  CHECK(ok, "objects with external linkage are exported, internal-linkage and block-scope static objects stay local"); }\n'
-        i = parselib.parse_inst('%s.%s' % (fam, nm), src, False, fam, checks=checks, record=True, unwind=70, timeout=300)
+        i = parselib.parse_inst('%s.%s' % (fam, nm), src, False, fam, checks=checks, record=True, unwind=70, timeout=300, witness=(len(L) % 6 == 0))
         i.bound = {'unit': src, 'symbols (gcc/nm)': syms}
         L.append(i)
     return L
